@@ -143,7 +143,7 @@ FAMILIES["snapshot"] = {
 
 FAMILIES["pool"] = {
     "rule": "random interleavings (5-700 ops, vocabulary 3-400 words, so 128-element chunk boundaries are crossed) of intern_string / intern_package_name / lookup_package_name / intern_solvable / "
-            "intern_version_set / intern_version_set_union / resolve_* (incl. out-of-range ids) on the real Pool; every reference obtained at intern time is re-resolved at `check-stable` points and its "
+            "intern_version_set / intern_version_set_union (1/4 of them nested: the iterator handed over interns another union while it is consumed) / resolve_* (incl. out-of-range ids) on the real Pool; every reference obtained at intern time is re-resolved at `check-stable` points and its "
             "address and contents compared; non-trivial = more than 128 items interned in one table or a repeated value; distinct by sha256",
     "nontrivial": lambda c, i: len(c) > 130 or len([l for l in c if l.startswith(("str", "name"))]) > len(set(l for l in c if l.startswith(("str", "name")))),
     "stats": lambda c, i: {"ops": len(c), "panics": sum(l == "panic" for l in i), "stable_checks": sum(l.startswith("stable") for l in i),
